@@ -62,6 +62,7 @@ func (e *Engine) verifyFunction(fn *ssa.Function, con *Contract) *FuncResult {
 			}
 		}()
 		fc.run()
+		fc.checkAnchors(con)
 	}()
 	res.Obligations = fc.obs
 	for l := range fc.usedLemmas {
@@ -339,4 +340,47 @@ func (e *Engine) verifyLemma(lm *Lemma) *FuncResult {
 	res.Errors = fc.errs
 	res.OutOfSubset = fc.unsupported
 	return res
+}
+
+// checkAnchors: a before_call/after_call clause whose anchor names no call site of the function (the
+// code changed, or the ordinal is wrong) is an error, never a silently skipped ghost update.
+func (fc *FnCtx) checkAnchors(con *Contract) {
+	if con == nil || fc.fn == nil || len(fc.fn.Blocks) == 0 {
+		return
+	}
+	fc.curFn = fc.fn
+	valid := map[string]bool{"exit": true}
+	nmu := 0
+	for _, b := range fc.fn.Blocks {
+		for _, in := range b.Instrs {
+			switch x := in.(type) {
+			case ssa.CallInstruction:
+				valid[fc.callAnchor(x.Common(), Val{})] = true
+			case *ssa.MapUpdate:
+				valid[fmt.Sprintf("mapupdate#%d", nmu)] = true
+				nmu++
+			case *ssa.Alloc:
+				valid["assign "+x.Comment] = true
+			}
+		}
+	}
+	for _, kind := range []string{"before_call", "after_call", "after_assign", "at_exit"} {
+		for _, c := range con.Extra[kind] {
+			i := strings.Index(c.Text, ":")
+			if i < 0 {
+				fc.errorf("%s: %s clause without anchor", c.Pos, kind)
+				continue
+			}
+			a := strings.TrimSpace(c.Text[:i])
+			ok := false
+			for v := range valid {
+				if strings.HasPrefix(c.Text, v+":") {
+					ok = true
+				}
+			}
+			if !ok {
+				fc.errorf("%s: %s anchor %q names no site in %s (run with -v for the anchor table)", c.Pos, kind, a, fc.eng.fnName(fc.fn))
+			}
+		}
+	}
 }
